@@ -4,11 +4,14 @@ One generated dataset (single- and multi-session histories, splits interleaved
 inside a session, multi-writer sessions in-process and with real worker
 processes); reads with shuffle=0, repeat=False through every applicable
 interface, for several generated file_parallelism values, twice on the same
-handle and once after reopening, with generated per-shard reader delays.
+handle (a shuffled pass and a pass abandoned after k examples in between) and
+once after reopening, with generated per-shard reader delays; a tf.data object
+is iterated twice with an abandoned partial iteration in between.
 Oracle: (a) for one interface all passes are the identical id sequence,
-whatever the parallelism; (b) for every session the subsequence of that
-session's ids is in write order (ids are allocated increasing in write order,
-multi-writer sessions writer-major in argument order).  Nothing is asserted
+whatever the parallelism, and a pass cut short is a prefix of it; (b) for
+every session the subsequence of that session's ids is in write order (ids
+are allocated increasing in write order, multi-writer sessions writer-major
+in argument order).  Nothing is asserted
 about the relative position of different sessions.
 """
 from __future__ import annotations
@@ -51,6 +54,8 @@ def strategy_case(draw, tier):
                             min_size=1,
                             max_size=3),
             "delays": st.lists(st.integers(0, 3), min_size=0, max_size=6),
+            # length of a pass which is abandoned early (0 = none)
+            "peek": st.sampled_from([0, 1, 2, 3, 5, 8]),
         }),
                  min_size=2,
                  max_size=5))
@@ -92,6 +97,19 @@ def run_case(case, ctx):
                     opts = {"repeat": False, "shuffle": 0}
                     if fp is not None:
                         opts["file_parallelism"] = fp
+                    if hname == "kept-again" and r.get("peek", 0):
+                        # ... nor must a pass which was abandoned early
+                        ok, head = oracles.guarded(
+                            ctx, "deterministic",
+                            ("iteration-raised", iface, "abandoned"),
+                            f"{iface} split={split} abandoned pass in between",
+                            lambda: dsops.read_prefix(ds, split, iface,
+                                                      r["peek"], **opts))
+                        if ok:
+                            sequences.append(
+                                ((fp, "abandoned-prefix"),
+                                 [dsops.ex_id_of(e) for e in head]))
+                            ctx.label("abandoned-pass")
                     iter_common.install_delays(desc, paths, r["delays"])
                     try:
                         ok, got = oracles.guarded(
@@ -117,12 +135,17 @@ def run_case(case, ctx):
                     f"{iface} split={split} re-iterated object",
                     lambda: dsops.tfdata_object(b.h.ds, split, **opts))
                 if ok:
-                    for again in ("object-pass-1", "object-pass-2"):
+                    for again in ("object-pass-1", "object-peek",
+                                  "object-pass-2"):
+                        if again == "object-peek" and not r.get("peek", 0):
+                            continue
                         ok2, got = oracles.guarded(
                             ctx, "deterministic",
                             ("iteration-raised", iface),
                             f"{iface} split={split} {again}",
-                            lambda: dsops.iterate_tfdata_object(*obj))
+                            lambda: dsops.iterate_tfdata_object(
+                                *obj, n=(r["peek"] if again == "object-peek"
+                                         else None)))
                         if ok2:
                             sequences.append(
                                 ((fps[0], again),
@@ -131,7 +154,13 @@ def run_case(case, ctx):
                     ctx.evaluated()
             ref_cfg, ref = sequences[0]
             for cfg, ids in sequences[1:]:
-                if ids != ref:
+                if cfg[1] in ("abandoned-prefix", "object-peek"):
+                    # a pass cut short is a prefix of the full pass
+                    same = ids == ref[:len(ids)] and len(ids) == min(
+                        r["peek"], len(ref))
+                else:
+                    same = ids == ref
+                if not same:
                     k = next((i for i, (x, y) in enumerate(zip(ids, ref))
                               if x != y), min(len(ids), len(ref)))
                     ctx.fail(
